@@ -25,6 +25,7 @@ type c19Schedule struct {
 	Schedule []int           `json:"schedule"`
 	Key      string          `json:"key"`
 	What     string          `json:"what"`
+	Cold     bool            `json:"cold,omitempty"`
 }
 
 type c19Race struct {
@@ -147,6 +148,7 @@ func c19Run(c *core.Ctx) {
 			Schedule []int           `json:"schedule"`
 			Key      string          `json:"key"`
 			What     string          `json:"what"`
+			Cold     bool            `json:"cold"`
 		} `json:"violations"`
 		Reports []json.RawMessage `json:"reports"`
 	}
@@ -156,7 +158,7 @@ func c19Run(c *core.Ctx) {
 	}
 	for _, v := range out.Violations {
 		c.FailCase("schedule|"+c19Key(v.Scenario, v.Key), fmt.Sprintf("scenario %s, schedule %v: %s", scenarioName(v.Scenario), v.Schedule, v.What), "schedule",
-			c19Schedule{Scenario: v.Scenario, Schedule: v.Schedule, Key: v.Key, What: v.What})
+			c19Schedule{Scenario: v.Scenario, Schedule: v.Schedule, Key: v.Key, What: v.What, Cold: v.Cold})
 	}
 	for _, s := range out.Capped {
 		c.Cap("scenario " + s + ": execution cap reached")
@@ -207,11 +209,12 @@ func init() {
 			if tier == "thorough" {
 				b = "2"
 			}
-			return "stateless exploration of thread interleavings on the real code: the library is rebuilt from an instrumented overlay (a scheduling point before every statement that touches conflict-relevant package-level state, local aliases of it, or a sync operation; sync.Pool replaced by a deterministic pool that detects objects handed out twice); scenarios = all unordered pairs of 26 library operations on private values plus a shared read-only message, every operation three-fold, and multi-step sequences; all schedules with at most " + b + " preemptions are executed (bound iterated from 0), each thread's result compared with its sequential result; replay determinism asserted per scenario. A state is one complete execution (schedule); transitions are scheduling decisions. Complement: the same bodies free-running on 2 and 64 goroutines under the race detector (sampling)."
+			return "stateless exploration of thread interleavings on the real code: the library is rebuilt from an instrumented overlay (a scheduling point before every statement that touches conflict-relevant package-level state, local aliases of it, or a sync operation; sync.Pool replaced by a deterministic pool that detects objects handed out twice); scenarios = all unordered pairs of the library operations of c19ops (codec, ciphering, integrity, accessors, every nasConvert conversion, QoS, PCO, UE policy, allocator; error paths included) on private values plus a shared read-only message, every operation three-fold, and multi-step sequences; all schedules with at most " + b + " preemptions are executed (bound iterated from 0), each thread's result compared with its sequential result; replay determinism asserted per scenario. Every scenario runs in a fresh process and its first execution runs on the untouched initial state (lazily built tables and caches cold); the sequential reference results are computed afterwards. On every explored execution a vector-clock happens-before analysis (edges: mutex release/acquire, RWMutex with readers unordered among themselves, Once, Pool hand-over) reports any two accesses to a package-level variable, at least one a write (classified per statement by the instrumenter), that are unordered — a data race of the execution whatever interleaving was picked. A state is one complete execution (schedule); transitions are scheduling decisions. Complement: the same bodies free-running under the race detector (sampling): 24 cold-start processes in which all operations start together on untouched state, then all pairs and a 64-goroutine mix."
 		},
 		Assumptions: []string{
 			"scheduling points cover package-level variables that some access site may write (found syntactically in the current tree), their intra-procedural aliases and sync operations; heap objects reachable only through unrelated pointers are covered by the race pass only",
-			"the cooperative scheduler does not model hardware memory ordering; unsynchronised accesses are the race detector's job (free-running pass, sampling)",
+			"the cooperative scheduler does not model hardware memory ordering; unsynchronised accesses to package-level variables are found by the happens-before analysis of each explored execution, those to heap objects by the race detector (free-running pass, sampling)",
+			"write classification is syntactic: assignment to the variable or its elements/fields (also through a local obtained by & or slicing), ++/--, delete/copy/clear, its address passed to a call, a method call other than Len/Cap/String/Bytes/Error on a variable that is neither a sync object nor of a third-party type; a write through a local loaded by index or field selection is not attributed to the variable",
 		},
 		Finish: func(m *core.Merged, cov map[string]any) { cov["distinct_nontrivial"] = m.Counters["scenarios_with_scheduling_points"] },
 	})
